@@ -536,9 +536,16 @@ package yang
 // inside a Node passes that test and is dereferenced. Everything else about
 // ToEntry (reflection) is outside the subset: no modifies clause, so a call
 // havocs the heap.
+//@ abstract entryOfModule(m *Module) *Entry
 //@ func ToEntry trusted
 //@   requires typeis(n, *Module) ==> asptr(n, *Module) != nil
+//@   ensures  typeis(n, *Module) ==> result == entryOfModule(asptr(n, *Module))   -- the entry of a module is cached: one module, one entry
+//@   ensures  (forall m *Module :: allocated(m) ==> m.BelongsTo == old(m.BelongsTo) && m.Modules == old(m.Modules))
+//@            && (forall b *BelongsTo :: allocated(b) ==> b.Name == old(b.Name))
+//@            && (forall s *Modules :: allocated(s) ==> s.Modules == old(s.Modules)) && (forall s *Modules, k string :: allocated(s) ==> s.Modules[k] == old(s.Modules[k]))
+//@            && (forall x *Entry :: allocated(x) ==> x.Node == old(x.Node))
 //
+//@ spec rootE(x *Entry) *Entry = x == nil ? nil : (x.Parent == nil ? x : rootE(x.Parent))
 //@ func (*Entry).Find props C17 C04 C01 C19
 //@   requires forall x *Entry :: ranked(x) && rootOK(x)
 //@   requires forall m *Module :: modOK(m)
@@ -547,9 +554,19 @@ package yang
 //@   ensures  e == nil || name == "" ==> result == nil
 //@   safe
 //@   loop 1
-//@     invariant e != nil
+//@     invariant e != nil && old(rootE(e)) == old(rootE(e0))
 //@     decreases rank(e)
 //@   loop 2
+//@     invariant[prefix-of-an-absolute-path-is-read-where-the-start-node-was-written] _k == 0 && splitPart(name, "/", 0) == "" && old(e0.Node) != nil
+//@                 && pfxOf(splitPart(name, "/", 1)) != "" && pfxOf(splitPart(name, "/", 1)) == old(ownPrefix(rootOf(e0.Node)))
+//@                 && old(rootOf(e0.Node)).BelongsTo == nil && old(rootOf(e0.Node)) == asptr(old(rootE(e0).Node), *Module)
+//@                 ==> e == old(rootE(e0))
+//@     invariant[prefix-of-an-absolute-path-from-a-grafted-node-leads-to-the-module-that-wrote-the-node] _k == 0 && splitPart(name, "/", 0) == "" && old(e0.Node) != nil
+//@                 && pfxOf(splitPart(name, "/", 1)) != "" && pfxOf(splitPart(name, "/", 1)) == old(ownPrefix(rootOf(e0.Node)))
+//@                 && old(rootOf(e0.Node)).BelongsTo == nil && old(rootOf(e0.Node)) != asptr(old(rootE(e0).Node), *Module)
+//@                 ==> e == entryOfModule(old(rootOf(e0.Node)))
+//@     invariant[a-relative-path-starts-at-the-start-node] _k == 0 && splitPart(name, "/", 0) != "" ==> e == e0
+//@     invariant[an-absolute-path-without-prefix-starts-at-the-root] _k == 0 && splitPart(name, "/", 0) == "" && pfxOf(splitPart(name, "/", 1)) == "" ==> e == old(rootE(e0))
 //@     body_ensures[step] e == step(old(e), parts[old(_k)])
 //@     body_returns[nothing-named] result == nil && step(old(e), parts[old(_k)]) == nil
 //@     body_ensures[existing-untouched] forall x *RPCEntry :: (old(x.Input) != nil ==> x.Input == old(x.Input)) && (old(x.Output) != nil ==> x.Output == old(x.Output))
